@@ -40,7 +40,8 @@ class Ctx:
         self.assumptions = []
         self.exhaustive = None
         import glob
-        for f in glob.glob(os.path.join(REPLAYS, "%s-*" % pid)): os.remove(f)
+        if tier != "replay":      # a new run replaces the replay files of the previous one; replaying one of them keeps them
+            for f in glob.glob(os.path.join(REPLAYS, "%s-*" % pid)): os.remove(f)
     quick = property(lambda self: self.tier == "quick")
     def count(self, k, n=1): self.dist[k] = self.dist.get(k, 0) + n
     def merge_stats(self, st):
@@ -108,9 +109,14 @@ def write_replay(pid, seed, n, header, lines):
         f.write("\n".join(lines) + "\n")
     return p
 
-def finish(ctx, rule, extra_cov=None, level="proof"):
-    """verdict + evidence; returns the process exit code"""
+def finish(ctx, rule, extra_cov=None, level="proof", replay_of=None):
+    """verdict + evidence; returns the process exit code. `replay_of`: re-run of one replay file - nothing is written,
+    the VIOLATION lines name that file"""
     known = load_known()
+    if replay_of:
+        global write_replay
+        _wr = write_replay
+        write_replay = lambda pid, seed, n, header, lines: replay_of
     rc = 0
     out = []
     n = 0
@@ -176,8 +182,14 @@ def finish(ctx, rule, extra_cov=None, level="proof"):
     if extra_cov: cov.update(extra_cov)
     ev = {"property_id": ctx.pid, "tier": ctx.tier, "seed": ctx.seed, "level": level, "coverage": cov,
           "assumptions": ctx.assumptions, "wall_s": round(wall, 2), "violations": violations}
-    os.makedirs(EVID, exist_ok=True)
-    json.dump(ev, open(os.path.join(EVID, ctx.pid + ".json"), "w"), indent=1)
+    if replay_of:
+        write_replay = _wr
+        for f in ctx.failures[:5]: print("  oracle: %s %s %s" % (f.clause, json.dumps(f.where), f.detail[:300]))
+        for lane, crash, lines in ctx.crashes[:2]: print("  abort: %s" % crash[:600])
+        for lane, desc, lines in ctx.disagreements[:2]: print("  disagreement: %s" % desc[:600])
+    else:
+        os.makedirs(EVID, exist_ok=True)
+        json.dump(ev, open(os.path.join(EVID, ctx.pid + ".json"), "w"), indent=1)
     for l in out: print(l)
     print("%s %s tier=%s seed=%s: %d scripts, %d distinct cases, %d/%d proof obligations, %d disagreements, %d oracle failures (%d known findings), %.1fs" %
           ("FAIL" if rc else "PASS", ctx.pid, ctx.tier, ctx.seed, ctx.evaluations, len(ctx.distinct), a["discharged"], a["obligations"],
